@@ -3,6 +3,10 @@
 // One case = one HISTORY of inputs (all sequences of length 1..L over a fixed alphabet, enumerated with E1).
 // The history is replayed on ONE long-lived bundle of analysers; after EACH call every observable of the reused
 // object is compared with a FRESH object that is given only that input (same context).
+// Reference ("fresh") observations: Parser / Auditor / Interpreter components - a brand-new object per input, computed in
+// every worker process BEFORE any history is replayed (twice, asserted identical), so that process-global state touched
+// by earlier histories cannot leak into the reference; generators - the call made first in a virgin process;
+// schema - an RSForm built from scratch with the reused form's current content, at every call.
 //
 // modes (each compares several components; comparisons are counted per component):
 //   parser      Parser::Parse (verdict, syntax, errors, tree with positions)  +  Parser::Lex token stream
@@ -533,6 +537,30 @@ void run_history(Ctx& c, const std::string& mode, const std::vector<Input>& alph
   c.rep.outcome(std::string(last.kind) + "/" + lastVerdict);
 }
 
+// The static generators live as long as the process: to make "the history" of a generators case exactly the calls of that
+// case, the history runs in a forked child of the worker (virgin statics are inherited: the worker itself never calls a
+// generator). The child's report is merged into the worker's; a child that dies takes the worker with it (E3 attributes it).
+void run_history_forked(Ctx& c, const std::string& mode, const std::vector<Input>& alpha, const FreshTable& table, const std::vector<int>& h) {
+  int fds[2]; if (pipe(fds) != 0) { perror("pipe"); _exit(5); }
+  fflush(nullptr);
+  const pid_t p = fork();
+  if (p < 0) { perror("fork"); _exit(5); }
+  if (p == 0) {
+    close(fds[0]); alarm(static_cast<unsigned>(c.case_timeout_s + 5));
+    Ctx cc; cc.label = c.label; cc.idx = c.idx; cc.cur_desc = c.cur_desc;
+    run_history(cc, mode, alpha, table, h);
+    FILE* f = fdopen(fds[1], "w"); if (!f) _exit(6);
+    cc.rep.write(f); fclose(f);
+    _exit(0);
+  }
+  close(fds[1]);
+  Report r; FILE* f = fdopen(fds[0], "r"); const bool complete = f && r.read(f); if (f) fclose(f);
+  int st = 0; waitpid(p, &st, 0);
+  if (WIFSIGNALED(st)) { signal(WTERMSIG(st), SIG_DFL); raise(WTERMSIG(st)); _exit(7); }  // die the same way, inside the case
+  if (!WIFEXITED(st) || WEXITSTATUS(st) != 0 || !complete) { fprintf(stderr, "HARNESS-ASSERT: generators child failed (status %d)\n", st); fflush(stderr); abort(); }
+  c.rep.merge(r);
+}
+
 void enumerate(Ctx& c, const std::string& mode, const std::vector<Input>& alpha, int maxLen) {
   const int N = static_cast<int>(alpha.size());
   const FreshTable table = build_fresh_table(mode, alpha);
@@ -544,7 +572,7 @@ void enumerate(Ctx& c, const std::string& mode, const std::vector<Input>& alpha,
         std::string desc = mode + " len" + std::to_string(len) + ":";
         for (int i : h) desc += std::string(" ") + alpha[static_cast<size_t>(i)].name + ";";
         c.begin(desc);
-        run_history(c, mode, alpha, table, h);
+        if (mode == "generators") run_history_forked(c, mode, alpha, table, h); else run_history(c, mode, alpha, table, h);
         if (c.idx % 7919 == 1 || (len == maxLen && c.idx % 30011 == 5)) c.rep.sample(desc);
         c.done();
       }
@@ -592,7 +620,7 @@ int main(int argc, char** argv) {
   { std::string a; for (auto& in : alpha) a += std::string(in.name) + " "; res.alphabet = a; }
   res.rule = "case = one history replayed on ONE long-lived bundle; after EVERY call each observable of every component is compared with a fresh object "
              "given only that input (reference of Parser/Auditor/Interpreter components: a brand-new object per input, computed in each worker process before any history is replayed, twice, asserted identical; "
-             "generators: the same call made first in a virgin process; schema: an RSForm freshly built with the reused form's current content, at every call); "
+             "generators: every history runs in its own forked process with virgin statics, reference = the same call made first in a virgin process; schema: an RSForm freshly built with the reused form's current content, at every call); "
              "histories are distinct by construction; non-trivial = some earlier input of the history differs in kind from the last one; "
              "counters compared:<component> give the number of reused-vs-fresh comparisons per component, checks = compared observables";
   res.assumptions = { "context fixed: X1={1,2,3}, X2={1..50}, S1⊆X1×X1 (3 pairs), D1 typed without data, F1[α∈ℬ(R1)], P1[α∈ℬ(R1)] with stored trees",
